@@ -161,7 +161,16 @@ func serverMsgStage(tr *tracer, i, b int) kmipserver.Middleware {
 			_, _ = next(ctx, msg)
 			r, err = next(ctx, msg)
 		case bReplMsg:
-			r, err = next(ctx, mkReq(reqID(msg)+fmt.Sprintf("'%d", i)))
+			// the substituted message differs from the original in its header too (another version, a correlation value,
+			// the Stop option): the core handler must work from the message it is handed, header included
+			nm := mkReq(reqID(msg) + fmt.Sprintf("'%d", i))
+			nm.Header.ProtocolVersion = kmip.V1_2
+			nm.Header.ClientCorrelationValue = fmt.Sprintf("corr%d", i)
+			nm.Header.BatchErrorContinuationOption = kmip.BatchErrorContinuationOptionStop
+			r, err = next(ctx, nm)
+			if err == nil && r != nil && strings.HasPrefix(respID(r, nil), "r:") && r.Header.ProtocolVersion != kmip.V1_2 { // a response built by the core handler
+				tr.log("S%d!response-header-version=%d.%d", i, r.Header.ProtocolVersion.ProtocolVersionMajor, r.Header.ProtocolVersion.ProtocolVersionMinor)
+			}
 		case bReplCtx:
 			r, err = next(context.WithValue(ctx, ctxMark{}, markOf(ctx)+fmt.Sprintf("c%d", i)), msg)
 		case bFailBefore:
